@@ -132,3 +132,29 @@ Proof. exact toric_mwpm_graph_total. Qed.
 Print Assumptions c02_toric_graph_has_perfect_matching.
 Print Assumptions c02_toric_graph_perfect_matching_iff.
 Print Assumptions c02_toric_mwpm_graph_total.
+
+(* ---- ONE decoder object serving a stream of different codes (Decoders/NaiveStream.v): the naive decoder's answer to
+   an item is the same in every history (other codes with equal n_k_d / label / syndrome bits decoded before), every
+   in-domain item of every stream gets an operator with exactly its syndrome, the max_qubits guard raises wherever the
+   item stands; and a look-up table of resolved recoveries is equal to the stateless decoder on every stream when
+   the key determines the answer (false for the key (n, syndrome bits): memo_by_n_and_syndrome_wrong). ---- *)
+From QV Require Import Decoders.NaiveStream.
+Theorem c02_naive_stream_history_free : forall mq pre it post,
+  nth_error (decode_stream mq (pre ++ it :: post)) (length pre) = Some (decode_item mq it).
+Proof. exact stream_history_free. Qed.
+Theorem c02_naive_stream_item : forall mq pre post stabs n s e0,
+  within mq n -> (length e0 = 2 * n)%nat -> syndrome_of stabs e0 = s ->
+  exists r, nth_error (decode_stream mq (pre ++ (stabs, n, s) :: post)) (length pre) = Some (NOk (Some r))
+            /\ (length r = 2 * n)%nat /\ syndrome_of stabs r = s.
+Proof. exact stream_item_ok. Qed.
+Theorem c02_naive_stream_guard : forall m pre post stabs n s, (S m < n)%nat ->
+  nth_error (decode_stream (Some (S m)) (pre ++ (stabs, n, s) :: post)) (length pre) = Some NValueError.
+Proof. exact stream_item_guard. Qed.
+Theorem c02_lookup_table_sound : forall (K : Type) (keq : K -> K -> bool) (key : list bsf -> nat -> bsf -> K),
+  (forall a b, keq a b = true -> a = b) -> key_sound K key ->
+  forall items, memo_stream K keq key [] items = map plain items.
+Proof. exact memo_stream_plain_empty. Qed.
+Print Assumptions c02_naive_stream_history_free.
+Print Assumptions c02_naive_stream_item.
+Print Assumptions c02_naive_stream_guard.
+Print Assumptions c02_lookup_table_sound.
